@@ -1,11 +1,11 @@
 SPECIFICATION Spec
 CONSTANTS
-  Inits <- AllInits
+  Inits <- @@INITS@@
   Targets <- AllTargets
   Statuses <- AllStatuses
   Forms <- AllForms
   Methods <- AllMethods
-  MaxSet = {0, 1, 2, 3}
-  MaxHops = 4
+  MaxSet = @@MAXSET@@
+  MaxHops = @@MAXHOPS@@
 VIEW MCView
 INVARIANT Inv
